@@ -18,6 +18,10 @@ Inductive case :=
 | Parties (ids : list string) (impl : list (string * Z * Z))
 | SortP (peers old : list string) (impl_kind : N) (impl : list (string * Z))
 | Validate (old_t : Z) (sub key_peers store : list string) (impl : N)
+(* whom the REAL process of kind k (0 keygen, 1 signing, 2 resharing; ECDSA and FROST) names as candidates
+   for the session's coordinator (ValidCoordinators), its stored key share listing key_peers and its
+   host's peerstore holding store (peer ids as hex) *)
+| Coords (k : N) (key_peers store impl : list string)
 | Scenario (ecdsa : bool) (obs : list sobs)
 (* the REAL BTC executor's watchExecution on a transaction with n Taproot inputs, fed the results rs
    ([None] = a nil value, [Some id] = the signature of input id's signing process - a real BIP-340
@@ -27,8 +31,10 @@ Inductive case :=
 | BtcWatch (n : nat) (rs : list (option nat)) (sent : nat) (valids : list bool)
 (* the COMPLETE BTC executor (Executor.Execute: transaction assembly, one signature hash and one real
    FROST signing process per input, the real tss.Coordinator, watchExecution, sendTx) on the three
-   fixture relayers, threshold 1, for a transfer that needs n of the bridge's UTXOs; per relayer:
-   transactions that reached its node and, per input, whether the witness verifies in all of them;
+   fixture relayers, threshold 1, for a transfer that needs n of the bridge's UTXOs (in general every
+   one of another value); per relayer: transactions that reached its node and, per input, whether the
+   witness verifies in all of them - against the outputs AS THE CHAIN HAS THEM (amount and script of
+   every spent output), not against what the executor took them to be;
    must_sign: the relayers' FROST shares were refreshed (same committee and threshold, the real
    resharing processes) before the execution - the new committee can sign: the transfer is broadcast *)
 | BtcExec (must_sign : bool) (n : nat) (relayers : list (nat * list bool)).
@@ -58,6 +64,9 @@ Definition sp_eqb (a b : sp_result) : bool :=
   | SpNilEntries, SpNilEntries | SpPanic, SpPanic => true
   | _, _ => false
   end.
+
+Definition pkind (k : N) : proc_kind :=
+  match k with 0%N => PKeygen | 1%N => PSigning | _ => PResharing end.
 
 Definition vres_code (v : vres) : N :=
   match v with VOk => 0 | VThresholdSmall => 1 | VSubsetSmall => 2 | VBadSubset => 3 end%N.
@@ -110,6 +119,8 @@ Definition agree (c : case) : bool :=
       sp_eqb (sort_parties (sort_keys (map pk peers)) (sort_keys (map pk old))) (sp_of_impl kind impl)
   | Validate old_t sub key_peers store impl =>
       N.eqb (vres_code (validate_start_params old_t (map pcode sub) (map pcode key_peers) (map pcode store))) impl
+  | Coords k key_peers store impl =>
+      same_members (map pcode impl) (coordinator_candidates (pkind k) (map pcode key_peers) (map pcode store))
   | Scenario ecdsa obs => scn_agree secp256k1_n ecdsa obs
   | BtcWatch n rs sent valids =>
       match btc_watch_tx n rs with
@@ -139,6 +150,8 @@ Definition judge (c : case) : bool :=
       && match kind with 0%N => idx_ok 0 (map snd impl) | _ => true end
   | Validate old_t sub key_peers store impl =>
       validate_ok old_t (map pcode sub) (map pcode key_peers) (map pcode store) (N.eqb impl 0)
+  | Coords k key_peers store impl =>
+      candidates_ok (pkind k) (map pcode key_peers) (map pcode store) (map pcode impl)
   | Scenario ecdsa obs => scn_ok secp256k1_n ecdsa None obs
   | BtcWatch n rs sent valids => btc_sent_ok n sent valids
   | BtcExec must n relayers => btc_exec_ok must n relayers
@@ -160,6 +173,7 @@ Definition tag (c : case) : N :=
       + (if (1 <? List.length (filter (fun o => match o with OShares _ _ _ _ _ => true | _ => false end) obs))%nat then 2 else 0)
   | BtcWatch n rs _ _ => match btc_watch_tx n rs with WSent _ => 31 | WWaiting => 30 | WPanic => 32 end
   | BtcExec must _ _ => if must then 34 else 33
+  | Coords k _ _ _ => 40 + k
   end%N.
 
 Definition check_all := check_cases agree judge tag.
